@@ -32,8 +32,11 @@ def bytesToNatsBE : Bytes → List Nat
   | a :: b :: c :: rest => (a.toNat * 65536 + b.toNat * 256 + c.toNat) :: bytesToNatsBE rest
   | _ => []
 
-/-- The primitives as table look-ups.  SASLprep: code points are passed as 3-byte big-endian
-    groups; the value `MISS` stands for "refused" only when the harness said so (`ff`). -/
+def be3 (n : Nat) : Bytes := [UInt8.ofNat (n / 65536), UInt8.ofNat (n / 256 % 256), UInt8.ofNat (n % 256)]
+
+/-- The primitives as table look-ups.  Character classes: `prim cls <cp> - - <bits>` with bits
+    1 = c12, 2 = b1, 4 = prohibited, 8 = d1, 16 = d2; NFKC: `prim nfkc <cps> - - <cps>` (code points
+    as 3-byte big-endian groups). -/
 def tablePrims (t : Table) : Prims where
   md5 := fun b => look t "md5" b [] []
   sha256 := fun b => look t "sha256" b [] []
@@ -41,9 +44,14 @@ def tablePrims (t : Table) : Prims where
   sha512 := fun b => look t "sha512" b [] []
   aesDec := fun k iv d => look t "aesdec" k iv d
   aesEnc := fun k iv d => look t "aesenc" k iv d
-  saslprep := fun cps =>
-    let r := look t "saslprep" (natsToBytesBE cps) [] []
-    if r = [255] then none else some (bytesToNatsBE r)
+  sasl :=
+    let bits := fun (c : Nat) => ((look t "cls" (be3 c) [] []).headD 0).toNat
+    { c12 := fun c => bits c % 2 == 1
+      b1 := fun c => bits c / 2 % 2 == 1
+      prohibited := fun c => bits c / 4 % 2 == 1
+      d1 := fun c => bits c / 8 % 2 == 1
+      d2 := fun c => bits c / 16 % 2 == 1
+      nfkc := fun cps => if cps.isEmpty then [] else bytesToNatsBE (look t "nfkc" (natsToBytesBE cps) [] []) }
 
 structure St where
   table : Table := {}
@@ -163,6 +171,22 @@ def step (st : St) (line : String) : St × String :=
     match st.handler, parseLoc loc, objid.toNat?, genno.toNat?, parseObj toks with
     | some h, some loc, some objid, some genno, some (o, []) =>
       (st, " ".intercalate (showObjToks (getobj (tablePrims st.table) h loc objid genno o)))
+    | _, _, _, _, _ => (st, "bad-op")
+  | ["saslprep", cps] =>
+    match natsOfString cps with
+    | some cps =>
+      match saslprepModel (tablePrims st.table).sasl cps with
+      | some r => (st, "S " ++ (if r.isEmpty then "-" else ",".intercalate (r.map toString)))
+      | none => (st, "N")
+    | none => (st, "bad-op")
+  | "trace" :: loc :: objid :: genno :: toks =>
+    match st.handler, parseLoc loc, objid.toNat?, genno.toNat?, parseObj toks with
+    | some h, some loc, some objid, some genno, some (o, []) =>
+      let r := getobjSt (tablePrims st.table) h false {} loc objid genno o
+      let show1 : Call → String
+        | .str b => "s:" ++ hexOrDash b
+        | .payload m raw => (if m then "m:" else "p:") ++ hexOrDash raw
+      (st, if r.2.2.isEmpty then "-" else " ".intercalate (r.2.2.map show1))
     | _, _, _, _, _ => (st, "bad-op")
   | ["spec.enc", m, key, objid, genno, iv, data] =>
     match parseMethod m, bytesOfHex key, objid.toNat?, genno.toNat?, bytesOfHex iv, bytesOfHex data with
